@@ -17,7 +17,7 @@ ASSUMPTIONS = ["destinations keep a margin >= 0.5 mm from region borders (the pr
                "G92 re-basing is applied only outside an open episode (C03's carve-out); it is explored in the "
                "dedicated c08-g92 scenario (known finding D16)"]
 
-PATH = [("TRAVEL", "O2"), ("TRAVEL", "I1"), ("TRAVEL", "O1"), ("PRINT", "I2"), ("PRINT", "O2"), ("TRAVEL", "H"),
+PATH = [("TRAVEL", "O2"), ("TRAVEL", "I1"), ("TRAVEL", "O1"), ("TRAVEL", "Org"), ("XONLY", "I1"), ("YONLY", "I1"), ("PRINT", "I2"), ("PRINT", "O2"), ("TRAVEL", "H"),
         ("TRAVELZ", "I1", 2), ("ZMOVE", 2), ("ZMOVE", 1), ("RETRACT",), ("RECOVER",), ("SWITCH",)]
 
 
@@ -28,7 +28,7 @@ def scenarios(tier):
     for T in ("inch", "rel", "translate"):
         out.append(Scenario("c08-" + T, ProductWorld, dict(prop="C08", T=T, world=w),
                             PATH if T != "translate" else PATH[:-1],
-                            max_depth=(7 if q else 9) if T != "translate" else (8 if q else 10), max_states=3000000))
+                            max_depth=(6 if q else 8) if T != "translate" else (7 if q else 9), max_states=3000000))
     out.append(Scenario("c08-g92", ProductWorld, dict(prop="C08", T="g92", world=w), PATH, max_depth=4 if q else 6,
                         max_states=3000000, finding="D16", note="dedicated to known finding D16 (G92 X/Y/Z offset sign)"))
     return out
